@@ -6,6 +6,10 @@ _VALUE_PARTS = list(range(1, 9))      # three source pixel types each x 24 desti
 _VIEW_PARTS = list(range(11, 19))     # three source pixel types each x 8 destinations (Latin depth pattern) = 24 pairs
 # sweeps: 5 x 16 slabs + cmyk8 (2) + gray, rgb16, rgb32f, rgb565 (4)
 _SWEEP_CASES = 86
+# conversions into heterogeneous-depth destinations (harness/c09_hetero.cpp): part 0 packed rgb565/bgr565/rgb332, rgba5551,
+# packed sources -> gray/rgb8/rgba8, views into packed images; part 1 packed bgr332, bit-aligned rgb565/rgb232/rgba5551
+_HSRC = "harness/c09_hetero.cpp"
+_HETERO_CASES = {0: 53, 1: 44}
 
 CFG = dict(
     level="exploration",
@@ -32,21 +36,28 @@ CFG = dict(
     exhaustive_domain={"quick": "all 2^24 rgb8 pixels (-> gray8, -> cmyk8 -> rgb8, -> rgba8), all rgba8 (r,a) x 16^2 (g,b), all gray8/gray16/rgb565 values in the native build; sanitizer build: stratified subset of the cube; 16-bit/float and the 576 type pairs: sampled",
                        "thorough": "as quick, and the sanitizer build also sweeps the whole rgb8 cube; 16-bit/float and the 576 type pairs: sampled (20000 pixels per pair)"},
     types=["gray8/16/32f", "rgb8/16/32f", "bgr8/16/32f", "rgba8/16/32f", "bgra8/16/32f", "argb8/16/32f", "abgr8/16/32f",
-           "cmyk8/16/32f", "rgb565/bgr565 packed pixels", "interleaved, planar, stepped image views"],
+           "cmyk8/16/32f", "rgb565/bgr565 packed pixels", "interleaved, planar, stepped image views",
+           "heterogeneous-depth destinations: packed_pixel rgb565, bgr565, rgb332, bgr332, rgba5551; bit_aligned_image3_type<5,6,5>, <2,3,2>, bit_aligned_image4_type<5,5,5,1> (through the view's reference) and images of them"],
     assumptions=["gray <-> cmyk: only range and layout independence are required (the property states neutrals between rgb, opaque rgba and cmyk only)",
                  "rgb -> gray across depths: one unit of the coarser of the two depths; float: 1e-6",
                  "rgb -> cmyk -> rgb: one 8-bit level, as stated, for every depth; an error in (1, 1.5] levels is keyed roundtrip-over-one-level.<pair>, a larger one roundtrip.<pair>",
                  "cmyk -> rgb is also compared with the header's documented formula 1 - min(1, c(1-k)+k) within one unit of each depth involved",
                  "views: all 8x8 ordered pairs of (colour space, layout) with three of the nine depth combinations each in a Latin pattern = 192 of the 576 type pairs (interleaved source and destination); every fourth of them also through the view's iterator, a stepped and a planar source and a planar destination",
+                 "into heterogeneous-depth destinations: gray8/16/32f, rgb8, bgr8, rgb16, rgb32f, rgba8, cmyk8, rgb565, rgb332 -> {rgb565, bgr565, rgb332, bgr332, bit-aligned rgb565, bit-aligned rgb232}; rgba8/rgba16/rgba5551 -> {rgba5551, bit-aligned rgba5551}; each destination channel against channel_convert into a packed_channel_value of that channel's bit count (hand-written table) and against the exact rescaling within one unit; gray/rgb/cmyk -> rgba5551 and rgba5551 -> gray/rgb/cmyk do not instantiate (channel_type of a heterogeneous pixel; color_convert.hpp: 'Supports homogeneous pixels only') and are not claimed",
                  "the pair and view TUs are compiled with -O0 instead of the profile's -O1 (compile time: copy_and_convert_pixels costs ~1 s per pair at -O1); the sweeps keep -O1 / -O2"],
     tus=[tu("c09_native0", _SRC, "native", extra=["-DC09_PART=0"], deps=_DEPS),
          tu("c09_asan0", _SRC, "asan", extra=FCO + ["-DC09_PART=0"], deps=_DEPS)]
         + [tu("c09_asan%d" % k, _SRC, "asan", extra=FCO + ["-O0", "-DC09_PART=%d" % k], deps=_DEPS) for k in _VALUE_PARTS]
-        + [tu("c09_asan%d" % k, _SRC, "asan", extra=FCO + ["-O0", "-DC09_PART=%d" % k], deps=_DEPS) for k in _VIEW_PARTS],
+        + [tu("c09_asan%d" % k, _SRC, "asan", extra=FCO + ["-O0", "-DC09_PART=%d" % k], deps=_DEPS) for k in _VIEW_PARTS]
+        + [tu("c09_hetero_native%d" % k, _HSRC, "native", extra=["-DC09H_PART=%d" % k], deps=_DEPS) for k in (0, 1)]
+        + [tu("c09_hetero_asan%d" % k, _HSRC, "asan", extra=FCO + ["-DC09H_PART=%d" % k], deps=_DEPS) for k in (0, 1)],
     runs=[run("c09_native0", shards=8, min_cases={"quick": _SWEEP_CASES, "thorough": _SWEEP_CASES}),
           run("c09_asan0", shards=8, min_cases={"quick": _SWEEP_CASES, "thorough": _SWEEP_CASES}, secondary=True)]
         + [run("c09_asan%d" % k, shards=2, min_cases={"quick": 72, "thorough": 72}) for k in _VALUE_PARTS]
-        + [run("c09_asan%d" % k, shards=1, min_cases={"quick": 24, "thorough": 24}) for k in _VIEW_PARTS],
+        + [run("c09_asan%d" % k, shards=1, min_cases={"quick": 24, "thorough": 24}) for k in _VIEW_PARTS]
+        + [run("c09_hetero_native%d" % k, shards=4, min_cases={"quick": _HETERO_CASES[k], "thorough": _HETERO_CASES[k]}) for k in (0, 1)]
+        + [run("c09_hetero_asan%d" % k, shards=8, min_cases={"quick": _HETERO_CASES[k], "thorough": _HETERO_CASES[k]}, secondary=True) for k in (0, 1)],
     require_obs=["sweep.rgb8-gray8.full-slab", "sweep.rgb8-cmyk8-rgb8.full-slab", "view.extended", "view.basic", "view.cmyk->gray", "view.rgba->rgba", "view.gray->cmyk",
-                 "pair.rgb->gray", "pair.rgba->cmyk", "pair.cmyk->rgba", "pair.gray->rgb"],
+                 "pair.rgb->gray", "pair.rgba->cmyk", "pair.cmyk->rgba", "pair.gray->rgb",
+                 "hetero.gray->rgb565", "hetero.gray->bitaligned-rgb232", "hetero.rgb->bgr332", "hetero.rgba->rgba5551", "hetero.cmyk->bitaligned-rgb565", "hetero-view"],
 )
